@@ -1191,7 +1191,77 @@ def b_repr(I, f, args, kw):
 
 
 def b_sorted(I, f, args, kw):
-    raise Unsupported('sorted (use the trusted stable-sort contract)')
+    if len(args) != 1 or set(kw) - {'key', 'reverse'}:
+        raise Unsupported('sorted arguments')
+    s = to_seq(I, args[0])
+    if not isinstance(s, VSeq):
+        raise Unsupported('sorted of a concrete container (use the trusted stable-sort contract)')
+    return list_sort(I, s, kw.get('key'), kw.get('reverse'))
+
+
+SORT_ASSUMPTION = ('list.sort: trusted stable-sort contract (the result is a permutation of the list, no later element '
+                   'compares less than an earlier one under the key order (reverse: the other way round), and elements '
+                   'whose keys do not compare less either way keep their relative order, for reverse=True too); '
+                   'key comparisons are assumed defined')
+
+
+def tuple_lt(I, a, b):
+    """a < b as Python compares sort keys: scalars by <, tuples lexicographically (first position
+    where the elements are neither identical nor ==, then <)."""
+    if isinstance(a, VTuple) and isinstance(b, VTuple) and len(a.items) == len(b.items):
+        lt = z3.BoolVal(False)
+        eq_prefix = z3.BoolVal(True)
+        for x, y in zip(a.items, b.items):
+            sc = (VNone, VBool, VInt, VStr, VAny)
+            if not (isinstance(x, sc) and isinstance(y, sc)):
+                raise Unsupported('sort key component')
+            same = to_pyval(x) == to_pyval(y)
+            eq = z3.Or(same, I.py_eq(x, y))
+            lt = z3.Or(lt, z3.And(eq_prefix, z3.Not(eq), truthy(I.cmp('lt', x, y))))
+            eq_prefix = z3.And(eq_prefix, eq)
+        return lt
+    sc = (VNone, VBool, VInt, VStr, VAny)
+    if isinstance(a, sc) and isinstance(b, sc):
+        return truthy(I.cmp('lt', a, b))
+    raise Unsupported('sort key shape')
+
+
+def list_sort(I, seq, keyf, rev):
+    """`lst.sort(key=keyf, reverse=rev)` on a list held as a sequence term: a new sequence term
+    constrained by the (trusted) stable-sort contract; the caller rebinds the name."""
+    from . import symcoll
+    vs = as_vseq(I, seq)
+    if vs.pred is not None:
+        raise Unsupported('sort of a filtered sequence')
+    n = vs.src_len
+    sig = z3.Function(fresh_name('sortperm'), z3.IntSort(), z3.IntSort())
+    inv = z3.Function(fresh_name('sortinv'), z3.IntSort(), z3.IntSort())
+    revb = truthy(rev) if rev is not None else z3.BoolVal(False)
+    ctx = I.ex.ctx
+    I.assumption(SORT_ASSUMPTION)
+    p, q = z3.Int(fresh_name('sp')), z3.Int(fresh_name('sq'))
+    ctx.add(z3.ForAll([p], z3.Implies(z3.And(p >= 0, p < n), z3.And(sig(p) >= 0, sig(p) < n, inv(sig(p)) == p)), patterns=[sig(p)]))
+    ctx.add(z3.ForAll([q], z3.Implies(z3.And(q >= 0, q < n), z3.And(inv(q) >= 0, inv(q) < n, sig(inv(q)) == q)), patterns=[inv(q)]))
+
+    def new_elem(pt):
+        return vs.elem(sig(pt))
+    new = VSeq(vs.src_len, new_elem, None, 'list')
+    new.sort_perm = sig          # position in the sorted list -> position in the list before this sort
+
+    def K(pt):
+        e = new_elem(pt)
+        if keyf is None or isinstance(keyf, VNone):
+            return e
+        return eval_merged(I, lambda: I.call(keyf, [e], {}), assume=[z3.And(pt >= 0, pt < n)])
+    kp, kq = K(p), K(q)
+    lt_pq, lt_qp = tuple_lt(I, kp, kq), tuple_lt(I, kq, kp)
+    rng = z3.And(p >= 0, p < q, q < n)
+    pats = symcoll.choose_patterns([p, q], z3.And(lt_pq, lt_qp, sig(p) < sig(q))) or [z3.MultiPattern(sig(p), sig(q))]
+    # sorted: an earlier element is never "after" a later one in the requested direction
+    ctx.add(z3.ForAll([p, q], z3.Implies(rng, z3.If(revb, z3.Not(lt_pq), z3.Not(lt_qp))), patterns=[z3.MultiPattern(sig(p), sig(q))]))
+    # stable: elements that tie keep their relative order (also under reverse=True)
+    ctx.add(z3.ForAll([p, q], z3.Implies(z3.And(rng, z3.Not(lt_pq), z3.Not(lt_qp)), sig(p) < sig(q)), patterns=[z3.MultiPattern(sig(p), sig(q))]))
+    return new
 
 
 def b_reversed(I, f, args, kw):
